@@ -52,10 +52,11 @@ class Eval:
 class Ctx:
     """One worker's simulator: zygotes per (flavour, tool)."""
 
-    def __init__(self, flavours=("asan",)):
-        self.builds = {}
+    def __init__(self, flavours=("asan",), builds=None):
+        self.builds = dict(builds) if builds else {}
         for f in flavours:
-            self.builds[f] = build.ensure_build(f)
+            if f not in self.builds:
+                self.builds[f] = build.ensure_build(f)
         self.zy = {}
         self.white_box = all(b["white_box"] for b in self.builds.values())
         self.counters = collections.Counter()
@@ -102,10 +103,10 @@ class Ctx:
 _worker = {}
 
 
-def _worker_init(modname, flavours):
+def _worker_init(modname, flavours, builds):
     import importlib
     _worker["mod"] = importlib.import_module(modname)
-    _worker["ctx"] = Ctx(flavours)
+    _worker["ctx"] = Ctx(flavours, builds)
 
 
 def _worker_chunk(args):
@@ -285,7 +286,7 @@ def run_check(mod, tier, mods_for_replay=None):
     counters = collections.Counter()
     errors = []
     capped = False
-    with ProcessPoolExecutor(max_workers=workers, initializer=_worker_init, initargs=(mod.__name__, flavours)) as ex:
+    with ProcessPoolExecutor(max_workers=workers, initializer=_worker_init, initargs=(mod.__name__, flavours, builds)) as ex:
         futs = [ex.submit(_worker_chunk, c) for c in chunks]
         for fu in futs:
             if time.time() - t0 > cap_s:
@@ -333,7 +334,7 @@ def run_check(mod, tier, mods_for_replay=None):
     reported = []
     machinery_broken = False
     if viol_by_class:
-        ctx = Ctx(("asan",))
+        ctx = Ctx(("asan",), builds)
         try:
             for cls, (i, seed, v) in viol_by_class.items():
                 ke = known_entry(known, cls)
